@@ -650,6 +650,10 @@ pub fn wrong_probes(stats: &mut Stats, res: &Vec<P>, probes: &[Coord2], want: &d
 pub fn check_membership(stats: &mut Stats, prop: &str, key: &str, res: &Vec<P>, probes: &[Coord2], want: &dyn Fn(Coord2, bool) -> bool, detail: &dyn Fn() -> String) -> bool {
     let (wrong, first) = wrong_probes(stats, res, probes, want);
     stats.add("probes", probes.len() as u64);
+    // a failure outside every recognisable input class (general position) is keyed by the input itself: a recorded failure is then one
+    // specific input, and any other input still alarms
+    const MARKERS: [&str; 10] = ["tangent", "identical", "shared_edge", "vertex_on_boundary", "vertex_near_boundary", "boundaries_touch", "repeated_operand", "crossings_close_together", "empty_", ".input_"];
+    let key = &if MARKERS.iter().any(|m| key.contains(m)) { key.to_string() } else { format!("{}.input_{:016x}", key, fnv(&detail())) };
     if let Some((p, got, want, d)) = first {
         stats.fail(prop, key, &format!("{} of {} probes wrong; probe={:?} in_result={} expected={} ({}) result={:?} {}", wrong, probes.len(), p, got, want, if d == f64::MAX { "the result is empty".to_string() } else { format!("probe is {:.4} from the result's boundary", d) }, res, detail()));
         return false;
